@@ -291,6 +291,33 @@ def rule_int(ctx, R, F):
         if body == e:
             R.ok(q, where, detail='canonical form (the textbook algorithm), accepted as correct for all operands')
             continue
+        if q in ('rotr', 'rotl'):
+            # a rotation only moves bits: decide it for every shift count 0..63 by known-bits evaluation with one unknown input bit at a time on an
+            # all-zeros and an all-ones background (each output bit must be exactly the input bit the rotation puts there)
+            import domains as _d
+            badr = None
+            w1 = (_d.type_info(f['params'][1]['ty']) or (32, False))[0]
+            for b_ in range(64):
+                for k_ in range(64):
+                    for bg in (0, M64):
+                        kb = _d.KB(64, ~bg & M64 & ~(1 << k_), bg & ~(1 << k_))
+                        ev_ = _d.KBEval(F, {f['params'][0]['id']: kb, f['params'][1]['id']: _d.KB.const(w1, b_)})
+                        r = ev_.run_body(f)
+                        dest = (k_ - b_) % 64 if q == 'rotr' else (k_ + b_) % 64
+                        exp_known = ref[q](bg & ~(1 << k_), b_) & ~(1 << dest) & M64 if bg else 0
+                        if ev_.ub:
+                            badr = (b_, k_, 'undefined: ' + ev_.ub[0])
+                        elif r is None or [i for i in range(64) if r.bit(i) is None] != [dest] or (r.ones & ~(1 << dest)) != (ref[q](bg, b_) & ~(1 << dest) & M64):
+                            badr = (b_, k_, r.hexpat() if r is not None else None)
+                        if badr:
+                            break
+                    if badr:
+                        break
+                if badr:
+                    break
+            R.check(badr is None, q, where, expected='%s(a, b): input bit k reaches output bit (k %s b) mod 64 for every b in 0..63' % (q, '-' if q == 'rotr' else '+'),
+                    found='b = %d, input bit %d: %s' % badr if badr else 'every bit routed correctly for all 64 counts (form differs from the reference text, meaning identical)')
+            continue
         # not the form this checker knows to be correct: a static argument is out of reach, but the function is pure integer code, so look for a counterexample
         # by evaluating its expression tree (fixed-width known-bits arithmetic on constants) on boundary operands
         import domains
